@@ -12,7 +12,8 @@ CLAIMED = {
    "Lean theorems about the faithful model for all automata, words and list orders; the model is tied to /repo by structural "
    "correspondence on every run and each returned automaton is checked by the verified language-equivalence oracle "
    "(langDiff_none_iff). The full claim over names that look like merged names is false (toDet_named_lang_false, KF-C01-1). "
-   "minimize: language and shape decided per instance by the oracle (Hopcroft model: see C02).",
+   "minimize: language and shape decided per instance by the oracle (Hopcroft model: see C02). toDet_named_total: the subset "
+   "construction with the library's naming always ends within 2^|Q| rounds.",
    "Lean kernel + {propext, Classical.choice, Quot.sound}; Spec in lean/Pfl/Spec/FA.lean; CPython set/dict/str behaviour modelled as lists/strings; "
    "the harness's value<->code table; correspondence only on explored inputs",
    "Lean 4 theorems on a faithful model + differential correspondence + verified equivalence oracle", "6 C01"),
@@ -21,7 +22,7 @@ CLAIMED = {
    "with the subset construction, are theorems about the faithful model; union/concatenate/kleene_star (which go through regex "
    "text) and all seven operations are decided per instance against verified reference constructions (unionA/concatA/starA/"
    "complementRef theorems) by the verified oracle. Pair-name collisions are a proved-false region (pairName_not_inj, KF-C03-1).",
-   "as C01; union/concatenate/kleene_star have no structural model yet (language-level oracle only)",
+   "as C01; union/concatenate/kleene_star are modelled through state elimination + regex combinator + Thompson (unionR/concatR/starR_lang), their results decided by the oracle",
    "Lean 4 theorems + reference constructions + verified equivalence oracle + correspondence", "6 C03"),
  "C04": ("proof",
    "is_empty, is_deterministic (both classes), is_acyclic, the co-reachability analysis and get_accepted_words (bounded and unbounded) "
